@@ -106,7 +106,7 @@ def scripted(t, rng, n_cycles):
 
 
 def traces(target, rng, tier):
-    n = 14 if tier == "quick" else 60
+    n = 14 if tier == "quick" else 30
     out = []
     for k in range(n):
         L = rng.randint(40, 260) if k % 5 else rng.randint(300, 300 + 3 * min(target.T360, 400))
@@ -145,7 +145,6 @@ def obligations(targets, tier):
             obs.append(tie.corr(f"corr_{t.name}", t, mstep=f"lt_step {c}", m0="lt_init",
                                 describe=f"LTSSM model vs simulator at {t.f} Hz, full-width random/scripted inputs"))
             continue
-        small = tier == "quick" or t.f != 25 or not t.loosen
         # 1. the specification itself, as a reachability monitor over the regenerated netlist
         if t.f == 25 and t.loosen:
             a = "lt_alpha_small" if tier == "quick" else "lt_alpha_core"
@@ -154,12 +153,11 @@ def obligations(targets, tier):
                                 describe=f"LTSSMController({t.f} Hz) satisfies the ghost-history specification on every "
                                          f"trace over {a} (certified reachability of netlist x monitor)"))
         # 2. netlist == model
-        if tier == "quick":
+        if tier == "quick" or t.f != 25 or not t.loosen:
             obs.append(rl(t, "lt_alpha_small", "small"))
-        elif t.f == 25 and t.loosen:
-            obs.append(rl(t, "lt_alpha_core", "core")); obs.append(rl(t, "lt_alpha_opt", "opt"))
         else:
             obs.append(rl(t, "lt_alpha_core", "core"))
+            obs.append(rl(t, "lt_alpha_opt_a", "opt_a")); obs.append(rl(t, "lt_alpha_opt_b", "opt_b"))
     return obs
 
 
@@ -197,7 +195,7 @@ ASSUMPTIONS = [
     "entry (8 ns at 125 MHz): stated as such in the theorems",
     "LUNA_COMPLIANCE is unset (Compliance falls through to Rx.Detect.Reset, as in normal builds)",
     "R ties at f = 25 Hz (T12,T2,T360 = 1,1,9; counter 4 bits; quick + thorough) and 100 Hz (2,1,36; thorough) over explicit input "
-    "alphabets (Model/Ltssm.v: lt_alpha_small 16 words quick; lt_alpha_core 36 words, lt_alpha_opt 21 words thorough): every event "
+    "alphabets (Model/Ltssm.v: lt_alpha_small 16 words: quick, and 100 Hz / strict mode in thorough; lt_alpha_core 28 words, lt_alpha_opt_a 15 words, lt_alpha_opt_b 16 words at 25 Hz: thorough): every event "
     "alone, warm reset alone and coinciding with each event, lfps_cycles_sent around the Polling.LFPS thresholds, optional requests; "
     "input words outside the alphabets: correspondence + specification oracle on simulator traces at 1 kHz, 125 MHz (quick) + "
     "250 Hz, 62.5 MHz, strict mode (thorough)",
